@@ -202,7 +202,46 @@ func s5Range() []BashCase {
 		"twelve-elements":           {VarDecl{Names: []string{"a"}, Type: TSliceInt}, forUp("i", 12, SliceSet{"a", vr("i"), bin("-", il(20), vr("i"))}), def("t", il(0)), rng("j", "v", vr("a"), OpAssign{"t", "+", bin("*", vr("v"), vr("j"))}), pr(vr("t"))},
 		"range-with-outer-loop-mix": {def("a", SliceLit{TInt, []Expr{il(3), il(4)}}), forUp("r", 2, rng("i", "v", vr("a"), ifs(cmp("==", vr("i"), vr("r")), Continue{}), pr(vr("r"), vr("i"), vr("v"))), pr(sl("after"), vr("r")))},
 	}
+	// nesting matrix over the kind of the ranged expression (variable, call result, literal, computed
+	// string): outer and inner iterables differ in length and content, the outer loop runs 3 times
+	type itk struct {
+		name  string
+		setup []Stmt
+		outer Expr
+		inner Expr
+		str   bool
+	}
+	kinds := []itk{
+		{"var-slice", []Stmt{def("oa", SliceLit{TInt, []Expr{il(10), il(20), il(30)}}), def("ia", SliceLit{TInt, []Expr{il(7), il(8)}})}, vr("oa"), vr("ia"), false},
+		{"call-slice", []Stmt{fn("rows", nil, []Type{TSliceInt}, ret(SliceLit{TInt, []Expr{il(10), il(20), il(30)}})), fn("cols", nil, []Type{TSliceInt}, ret(SliceLit{TInt, []Expr{il(7), il(8)}}))}, call("rows"), call("cols"), false},
+		{"literal-slice", nil, SliceLit{TInt, []Expr{il(10), il(20), il(30)}}, SliceLit{TInt, []Expr{il(7), il(8)}}, false},
+		{"var-string", []Stmt{def("os", sl("abc")), def("is", sl("xy"))}, vr("os"), vr("is"), true},
+		{"literal-string", nil, sl("abc"), sl("xy"), true},
+		{"concat-string", []Stmt{def("p", sl("a")), def("q", sl("x"))}, bin("+", vr("p"), sl("bc")), bin("+", vr("q"), sl("y")), true},
+		{"call-string", []Stmt{fn("word", nil, []Type{TString}, ret(sl("abc"))), fn("tag", nil, []Type{TString}, ret(sl("xy")))}, call("word"), call("tag"), true},
+		{"group-var", []Stmt{def("ga", SliceLit{TInt, []Expr{il(10), il(20), il(30)}}), def("gb", SliceLit{TInt, []Expr{il(7), il(8)}})}, Group{vr("ga")}, Group{vr("gb")}, false},
+	}
 	cases := []BashCase{}
+	for _, o := range kinds {
+		for _, in := range kinds {
+			stmts := []Stmt{}
+			stmts = append(stmts, o.setup...)
+			if in.name != o.name {
+				stmts = append(stmts, in.setup...)
+			}
+			stmts = append(stmts, rng("i", "x", o.outer, rng("j", "y", in.inner, pr(vr("i"), vr("x"), vr("j"), vr("y"))), pr(sl("row"), vr("i"), vr("x"))), pr(sl("end")))
+			cases = append(cases, BashCase{Key: "S5/nest/" + o.name + "/" + in.name, Prog: SingleFile(stmts)})
+			// the same inside a function, and with the inner loop in a callee
+			body := []Stmt{rng("i", "x", o.outer, ExprStmt{call("innerLoop", vr("i"))}, pr(sl("row"), vr("i"), vr("x")))}
+			st2 := []Stmt{}
+			st2 = append(st2, o.setup...)
+			if in.name != o.name {
+				st2 = append(st2, in.setup...)
+			}
+			st2 = append(st2, fn("innerLoop", []Param{{"k", TInt}}, nil, rng("j", "y", in.inner, pr(vr("k"), vr("j"), vr("y")))), fn("outerLoop", nil, nil, body...), ExprStmt{call("outerLoop")}, pr(sl("end")))
+			cases = append(cases, BashCase{Key: "S5/nest-callee/" + o.name + "/" + in.name, Prog: SingleFile(st2)})
+		}
+	}
 	for _, k := range sortedStmtKeys(progs) {
 		cases = append(cases, BashCase{Key: "S5/" + k, Prog: SingleFile(progs[k])})
 	}
@@ -249,7 +288,7 @@ func checkC03(c *Check) {
 		cases = append(cases, BashCase{Key: fmt.Sprintf("random/c03/seed=%d", seed), Prog: g.Program(), NonTrivial: nontrivial})
 	}
 	runProbes(c, bashProbeJudge)
-	runBashCases(c, cases)
+	runBashCases(c, withTight(cases, 4))
 	c.mu.Lock()
 	c.mu.Unlock()
 }
